@@ -824,6 +824,11 @@ pub fn replay(case: &J) -> Vec<Viol> {
         Some("giant_in_frame") => {
             return crate::e1c::giant_in_frame().into_iter().map(|(class, what)| Viol { class, key: "Vec:in-frame 2^32+5".into(), what, case: case.clone(), size: 5 }).collect();
         }
+        Some("c14restart") => {
+            let a = case.get("abort").and_then(|b| b.as_str()).and_then(crate::json::unhex).unwrap_or_default();
+            let b = case.get("bytes").and_then(|b| b.as_str()).and_then(crate::json::unhex).unwrap_or_default();
+            crate::e1c::c14_restart_one(kind, &a, &b).into_iter().collect()
+        }
         Some("c14split") => {
             let b = case.get("bytes").and_then(|b| b.as_str()).and_then(crate::json::unhex).unwrap_or_default();
             let k = (case.get("split").and_then(|k| k.as_i()).unwrap_or(0) as usize).min(b.len());
